@@ -22,7 +22,17 @@ def seeded_table():
         n += 1; c += bool(m.get("caught_by_quick_check"))
         cut = lambda s, k: (s or "").replace("|", "/").replace("\n", " ")[:k]
         rows.append(f"| {name} | {m['property']} | {cut(m.get('summary'), 220)} | {cut(m.get('needs'), 200)} | {'yes' if m.get('caught_by_quick_check') else 'NO'} | {m.get('first_signature') or '-'} | {cut(m.get('note'), 260)} |")
-    return f"{n} independently seeded changes kept (each verified: demo passes on /repo, fails with the patch, baseline tests still pass); {c} are caught by the registered quick check.\n\n" + "\n".join(rows)
+    # per-round statistics (round 1: CXX-k, later rounds: CXX-rN-k); "initially MISSED" is recorded in the note
+    stats = {}
+    for p in sorted(glob.glob(os.path.join(HERE, "seeded", "*", "meta.json"))):
+        m = json.load(open(p)); name = os.path.basename(os.path.dirname(p))
+        r = name.split("-")[1] if "-r" in name else "r1"
+        st = stats.setdefault(r, [0, 0])
+        st[0] += 1; st[1] += ("MISSED" in (m.get("note") or ""))
+    per_round = "; ".join(f"round {r[1:]}: {a} changes, {b} missed when first evaluated" for r, (a, b) in sorted(stats.items()))
+    return (f"{n} independently seeded changes kept (each verified: demo passes on /repo, fails with the patch, baseline tests still pass); "
+            f"{c} are caught by the registered quick check now. {per_round}. Every miss led to a strengthening of the check concerned "
+            f"(column note) and is caught since.\n\n" + "\n".join(rows))
 
 def mutants_table():
     rows = ["| property | mutant patches under mutants/<id>/ |", "|---|---|"]
